@@ -94,6 +94,15 @@ int main(int argc, char** argv)
                     ctx.each([&] { return chk.describe(D, av, {}); },
                              [&](mc::Report& rep) { chk.run_second(D, f, {}, av, {}, rep, idx); });
                 });
+        // the parser object held a declaration with the opposite greedy mode and another accepted count before (move
+        // assignment), or was used before its options were declared
+        for (auto& D : decls)
+        {
+            Decl Dprev = D;
+            Dprev.greedy = !D.greedy;
+            Dprev.accepted = D.accepted == 1 ? 2 : 1;
+            for_all_vectors(alpha, a.asan() ? 2 : 3, ctx, [&](const std::vector<std::string>& av) { chk.used_before(ctx, D, Dprev, av, {}); });
+        }
     };
     auto rep = sh.run();
     int deep = 0;
